@@ -8,6 +8,7 @@ import (
 	"strings"
 	"sync"
 	"testing"
+	"time"
 
 	"github.com/facebookincubator/dns/dnsrocks/dnsserver"
 	"github.com/miekg/dns"
@@ -253,14 +254,27 @@ func stripUnknownOptions(m *dns.Msg) (*dns.Msg, bool) {
 	return c, changed
 }
 
+// c13HangLimit: a query is answered in microseconds; one that has not returned
+// after this long is stuck in a loop (its goroutine is abandoned).
+const c13HangLimit = 30 * time.Second
+
 func c13Serve(h *dnsserver.FBDNSDB, req *dns.Msg, remote string, tcp bool) (w *kit.Writer, rc int, err error, pan interface{}) {
 	w = &kit.Writer{Remote: remote, TCP: tcp}
-	defer func() {
-		if r := recover(); r != nil {
-			pan = r
-		}
+	done := make(chan struct{})
+	go func() {
+		defer close(done)
+		defer func() {
+			if r := recover(); r != nil {
+				pan = r
+			}
+		}()
+		rc, err = h.ServeDNS(dnsserver.WithMaxAnswer(context.Background(), 2), w, req)
 	}()
-	rc, err = h.ServeDNS(dnsserver.WithMaxAnswer(context.Background(), 2), w, req)
+	select {
+	case <-done:
+	case <-time.After(c13HangLimit):
+		return &kit.Writer{Remote: remote, TCP: tcp}, 0, nil, fmt.Sprintf("handler did not return within %v (endless loop)", c13HangLimit)
+	}
 	return
 }
 
@@ -275,6 +289,9 @@ func c13Check(t kit.Fataler, d c13DB, wire []byte, remote string, tcp bool, reco
 	}
 	w, _, _, pan := c13Serve(d.h, req.Copy(), remote, tcp)
 	if pan != nil {
+		if s, ok := pan.(string); ok && strings.Contains(s, "did not return") {
+			fail("handler-hang", "%s", s)
+		}
 		fail("panic", "handler panicked: %v", pan)
 	}
 	if len(w.Raw) > 0 {
